@@ -62,9 +62,16 @@ def handle (line : String) : String :=
   | "X02" :: rest => handleX02 rest
   | "X03" :: rest => handleX03 rest
   | "O06" :: rest => handleO06 rest
-  | "D09" :: rest => handleDbg true rest
+  | "D09" :: rest => handleDbg "D09" rest
+  | "D10" :: rest => handleDbg "D10" rest
+  | "D11" :: rest => handleDbg "D11" rest
+  | "D12" :: rest => handleDbg "D12" rest
+  | "D13" :: rest => handleDbg "D13" rest
+  | "D16" :: rest => handleDbg "D16" rest
   | "X06" :: rest => handleX06 rest
   | "Y06" :: rest => handleY06 rest
+  | "S07" :: rest => handleS07 rest
+  | "S08" :: rest => handleS08 rest
   -- direct predicates on the implementation: the only acceptable observation is `holds`
   | "Z06" :: _ => "M holds ;; S holds"
   | "K20" :: rest => Lace.Driver.Edit.handleK20 rest
